@@ -6,8 +6,10 @@
  * (width, order, kind, ref-function, set-function; swap helpers; range
  * predicates).  At start-up the header that is being compiled
  * ($UFW_REPO/include/ufw/binary-format.h) is scanned for the definitions of
- * bf_ref_*, bf_set_*, bf_swap*, bf_inrange_*: a definition without a table row,
- * or a count different from the table's, is "harness broken" (exit 2).
+ * bf_ref_*, bf_set_*, bf_swap*, bf_inrange_*: a definition without a table row
+ * is recorded as a cap ("not driven").  Fewer plain definitions than table rows
+ * (macro-generated functions) is not a gap: the wrappers call all 111 names, so
+ * the harness does not compile unless every one exists.
  *
  * A value of a W-bit row is handled as its W-bit pattern v (0 <= v < 2^W).  The
  * argument handed to a signed setter is v sign-extended from bit W-1; floats
@@ -231,8 +233,15 @@ table_guard(void)
         ++found;
         i = e;
     }
-    if (found != table)
-        mc_cap("binary-format.h defines %d of the %d functions of the C15 table", found, table);
+    /* found < table: some functions of the table are not written as plain
+     * `static inline` definitions (generated by a macro template, or macros
+     * themselves).  That takes nothing away from the check: the wrappers above
+     * call every one of the 111 names, so this harness does not compile unless
+     * each exists, and each is driven.  The scan only serves to notice
+     * functions the table does not know (reported above). */
+    if (found > table)
+        mc_cap("the header scan counts %d definitions for the %d names of the C15 table (duplicate definitions under #if?); all %d names are driven",
+               found, table, table);
 }
 
 /* ======================================================================== *
